@@ -183,5 +183,26 @@ theorem C02_open_means_ready (s : State) (c : ConnId) (hl : s.cfg.lax = false) (
     simp only [hl, Bool.false_or, Bool.and_eq_true, Bool.not_eq_true'] at ho
     exact ⟨k, rfl, ho.1, ho.2⟩
 
+/-- **C02 (a hand-back task that is dropped returns nothing).** When the runtime that hosts the pool's
+    tasks goes away, a released connection that has not yet reported ready is dropped with its task: it
+    is put into no idle list and no channel, whatever `is_open()` says about it (fix 0257728; before it,
+    `WhenReady::drop` pushed any connection that called itself open). The reachable-state invariants
+    `run_lininv` / `run_ready` cover the `shutdown` op like every other. -/
+theorem C02_dropped_handback_returns_nothing (s : State) (i : Nat) (c : ConnId) (t : Token) (hp : Bool)
+    (ht : taskOf s i = some (.whenReady c t hp)) :
+    (abortTask s i).idle = s.idle ∧ (abortTask s i).chan = s.chan ∧ c ∈ (abortTask s i).dropped := by
+  unfold abortTask
+  simp only [ht]
+  exact ⟨rfl, rfl, List.mem_cons_self⟩
+
+/-- Non-vacuity, with a connection type that calls itself open while busy: the response arrives, the
+    runtime is shut down before the connection is ready again, the next request dials (2 dials). -/
+example :
+    let ops : List Op := [.issue 0 7 false, .poll 0, .dialDone 0 (.ok .asRequested), .poll 0, .finish 0, .shutdown,
+                          .issue 1 7 false, .poll 1]
+    let res := run (init { lax := true }) ops
+    res.2.getLast? = some .pending ∧ res.1.dialCount = 2 ∧ res.1.dropped = [0] := by
+  decide
+
 end Hd.Pool
 
